@@ -15,8 +15,14 @@ func VerifC24_step() {
 	out := verifChoose(capN - nlist + 1)
 	made := 0
 	var fresh []*verifWire
-	p := newPool(capN, deadFn(), 0, 0, func(ctx context.Context) wire {
+	dead := deadFn()
+	dialFailed := false
+	p := newPool(capN, dead, 0, 0, func(ctx context.Context) wire {
 		made++
+		if made == 1 && verifNondetBool() {
+			dialFailed = true // makeMux hands the pool its dead wire when dialling fails
+			return dead
+		}
 		w := &verifWire{id: 100 + made}
 		if made == 1 && verifNondetBool() {
 			w.stopTimer = func() bool { return false } // e.g. the connection lifetime expired while dialing (bounded: once)
@@ -68,7 +74,9 @@ func VerifC24_step() {
 			verifAssert(vw.err == nil && vw.closed == 0, "an acquired connection is healthy and open")
 			verifReach("acquired")
 		} else {
-			verifFail("Acquire with a live context on an open pool returned a dead connection")
+			verifAssert(dialFailed && v == wire(dead), "Acquire with a live context on an open pool returns a dead connection only when dialling failed")
+			out++ // the failed dial occupies a slot until the caller hands the wire back
+			verifReach("dialfailed")
 		}
 		for _, w := range listed {
 			if !inList(w) && w != v {
@@ -81,6 +89,13 @@ func VerifC24_step() {
 			}
 		}
 		check("after Acquire")
+		// every caller hands what it acquired back to the pool
+		if vw, ok := v.(*verifWire); ok && verifNondetBool() {
+			vw.err = verifErrPage // it broke while in use
+		}
+		p.Store(v)
+		out--
+		check("after storing the acquired connection back")
 	case 1: // Acquire with a done context, then the caller stores what it got (mux.blocking, DoStream, release)
 		ctx, cancel := context.WithCancel(context.Background())
 		cancel()
